@@ -20,6 +20,8 @@ const (
 	KBool        Kind = "bool"
 	KBoolSlice   Kind = "[]bool"
 	KBoolPtr     Kind = "*bool"
+	KToggle      Kind = "Toggle"          // named type over bool without methods: a plain flag
+	KMapSB       Kind = "map[string]bool" // map whose values are of kind bool: still takes an argument
 	KString      Kind = "string"
 	KStringPtr   Kind = "*string"
 	KStringSlice Kind = "[]string"
@@ -66,6 +68,9 @@ const (
 // (the empty text denotes the zero value, so that marshalling is the inverse of
 // unmarshalling on every reachable value); text containing "!bad" denotes nothing.
 type Upper string
+
+// Toggle is a named type over bool (no methods): a flag like any bool.
+type Toggle bool
 
 // Lvl is an integer type that additionally implements the standard library's
 // encoding.TextUnmarshaler / TextMarshaler with a symbolic spelling. The option
@@ -168,6 +173,8 @@ var kindTypes = map[Kind]reflect.Type{
 	KBool:        reflect.TypeOf(false),
 	KBoolSlice:   reflect.TypeOf([]bool(nil)),
 	KBoolPtr:     reflect.TypeOf((*bool)(nil)),
+	KToggle:      reflect.TypeOf(Toggle(false)),
+	KMapSB:       reflect.TypeOf(map[string]bool(nil)),
 	KString:      reflect.TypeOf(""),
 	KStringPtr:   reflect.TypeOf((*string)(nil)),
 	KStringSlice: reflect.TypeOf([]string(nil)),
@@ -249,13 +256,15 @@ func (k Kind) MapKV() (Kind, Kind) {
 		return KInt, KString
 	case KMapFS:
 		return KFloat64, KString
+	case KMapSB:
+		return KString, KBool
 	}
 	panic("not a map kind")
 }
 
 // IsFlag: the option takes no argument (documented: bool v.s. other type).
 func (k Kind) IsFlag() bool {
-	return k == KBool || k == KBoolSlice || k == KBoolPtr || k == KFunc0 || k == KFunc0E
+	return k == KBool || k == KBoolSlice || k == KBoolPtr || k == KToggle || k == KFunc0 || k == KFunc0E
 }
 
 // IsSignedNum: signed numeric option (accepts a separate negative number).
